@@ -147,17 +147,17 @@ Fixpoint collect_text (n : node) : bytes :=
     end
   end.
 
-(* Anchorizer::anchorize after the slug stage; fuel |issued|+1 suffices (Proofs) *)
-Fixpoint uniq_loop (fuel : nat) (iss : list bytes) (id : bytes) (k : N) : res bytes :=
+(* Anchorizer::h_anchorize after the slug stage; fuel |issued|+1 suffices (Proofs) *)
+Fixpoint h_uniq_loop (fuel : nat) (iss : list bytes) (id : bytes) (k : N) : res bytes :=
   match fuel with
   | O => OutOfFuel
   | S f =>
     let cand := if (k =? 0)%N then id else id ++ [x2d] ++ dec k in
-    if existsb (bytes_eqb cand) iss then uniq_loop f iss id (k + 1)%N else Ok cand
+    if existsb (bytes_eqb cand) iss then h_uniq_loop f iss id (k + 1)%N else Ok cand
   end.
 
-Definition anchorize (slug : bytes -> bytes) (iss : list bytes) (header : bytes) : res (list bytes * bytes) :=
-  do a <- uniq_loop (S (List.length iss)) iss (slug header) 0%N;
+Definition h_anchorize (slug : bytes -> bytes) (iss : list bytes) (header : bytes) : res (list bytes * bytes) :=
+  do a <- h_uniq_loop (S (List.length iss)) iss (slug header) 0%N;
   Ok (a :: iss, a).
 
 (* put_footnote_backref: returns events, new state, and whether anything was written *)
@@ -283,7 +283,7 @@ Definition enter (slug : bytes -> bytes) (o : opts) (c : ctx) (n : node) (st : h
     match o_header_ids o with
     | None => Ok ([Cr; Open (heading_tag level) sa], st, MHtml)
     | Some prefix =>
-      do r <- anchorize slug (issued st) (collect_text n);
+      do r <- h_anchorize slug (issued st) (collect_text n);
       let (iss', id) := r in
       Ok ([Cr; Open (heading_tag level) sa;
            Open (B "a") [Attr (B "href") [PConst ([x23] ++ id)]; Attr (B "aria-hidden") [PConst (B "true")];
